@@ -225,7 +225,8 @@ def rule_node_free(ctx):
     ctx.require(len(sends) == 1, 'C17.pair', f'Node.free: {len(sends)} sends found')
     sf = f.params[1] if len(f.params) > 1 else 'send_flag'
     tests = sorted({norm(p_.test) for p_ in U.parent_chain(sends[0]) if isinstance(p_, ast.If)})
-    early = [norm(r)[:40] for r in walk_local(f.node) if isinstance(r, (ast.Return, ast.Raise)) and r.lineno < sends[0].lineno]
+    early = [norm(r)[:40] for r in walk_local(f.node) if isinstance(r, (ast.Return, ast.Raise)) and r.lineno < sends[0].lineno
+             and not (lambda ts: ts and all(set(U.names_in(t)) <= {sf} for t in ts))([p_.test for p_ in U.parent_chain(r) if isinstance(p_, ast.If)])]
     ctx.ob('C17.pair', f'{f.fq}:sends-whenever-asked', set(tests) <= {sf} and not early,
            f'/n_free is sent only under {tests}, after possible exits {early}: nodes for which the extra condition fails (basic_new, replace, '
            f'before/after a grouped-less target) are never freed on the server', f.node, f.module)
